@@ -104,3 +104,25 @@ Section Stages.
     pose proof (GvSource.src_install_gv stale L ms st) as H. cbv zeta in H. exact H.
   Qed.
 End Stages.
+
+(* From the text to the call: what the translated install_gv leaves in dispatch_data, read by the translated call-time walk with
+   the slots_strides the translated install_gv produced, is the word of the definition the documented rule designates. *)
+From Y2 Require Model.MiniWalk Gen.GenWalk Proofs.WalkCompose Proofs.ResolveProofs.
+
+Theorem text_to_dispatch R stale C mi m cs kinds checks :
+  wf_registry R -> compile_with stale R = Ok C -> nth_error (r_methods R) mi = Some m ->
+  Forall (fun c => c < ncls (o_lat C)) cs -> legal R m (map (key (o_lat C)) cs) ->
+  forall st, o_slots C = s_slots st -> o_first C = s_first st ->
+  exists img ss offs vptrs image,
+    MiniGv.run_gv GenGv.gen_install_gv stale (o_meths C) (o_tables C) (s_slots st) (s_first st) (o_vtbl C)
+    = Some (MiniGv.mk_gs img ss offs vptrs, image) /\
+    let cm := nth mi (o_meths C) (mk_cmeth [] [] [] []) in
+    MiniWalk.walk_resolve image (nth mi ss []) (length (cm_vp cm)) None checks GenWalk.gen_walkfns GenWalk.gen_entry
+                 (cm_shape cm) (actuals_of C (m_shape m) cs) kinds
+    = Some (ResolveProofs.word_of_outcome mi (spec_dispatch R (meth_defs R m) (map (key (o_lat C)) cs))).
+Proof.
+  intros Hwf HC Hm Hcs Hlegal st H1 H2.
+  destruct (stage_install R stale C Hwf HC st H1 H2) as [img E].
+  exists img, (o_ss C), (o_table_off C), (o_vptr C), (o_image C). split; [exact E|].
+  exact (WalkCompose.src_dispatch R stale C mi m cs kinds checks Hwf HC Hm Hcs Hlegal).
+Qed.
